@@ -267,6 +267,26 @@ impl Prop for C01 {
                 },
             ));
             f.push(Family::new(
+                "overflow-to-infinity",
+                Mode::Full,
+                "values that overflow the double range while they carry a display base: '<lit> * 1Y * 1Y ...' with 13..=16 factors (1Y^15 is infinite) for <lit> in [0x10, 0b1, 0o7, 5, 5 usd, 5%, 5 km], alone, followed by 'to hex | octal | binary | decimal', and through variables ('a = <lit> * 1Y * 1Y * 1Y * 1Y * 1Y / a * a * a / 1 + 1'): returns normally with one slot per line",
+                move |ch| {
+                    let lit = *ch.pick(&["0x10", "0b1", "0o7", "5", "5 usd", "5%", "5 km"]);
+                    let k = 13 + ch.choose(4);
+                    let prod = format!("{}{}", lit, " * 1Y".repeat(k));
+                    let text = match ch.choose(7) {
+                        0 => prod,
+                        1 => format!("{} to hex", prod),
+                        2 => format!("{} to octal", prod),
+                        3 => format!("{} to binary", prod),
+                        4 => format!("{} to decimal", prod),
+                        5 => format!("a = {} * 1Y * 1Y * 1Y * 1Y * 1Y\na * a * a\n1 + 1", lit),
+                        _ => format!("x = {}\nx to octal\n0 - x\n2", prod),
+                    };
+                    Some(simple("en", text))
+                },
+            ));
+            f.push(Family::new(
                 "user-families",
                 Mode::Full,
                 "calculators that carry user unit families added through the API - one whose lowest item has index 0 (zaa 0, zbb 1, zcc 2), one whose words collide with built-in units (troy-weight), the bystander family 'fmt' - x every ordered pair of their units and of [kg, lb] in 'N A to B', 'N A + M B', 'N A / M B', 'N A B' for N in [1, 0, -5, 1e20]: returns normally",
